@@ -644,7 +644,8 @@ def run_ops(case, rng):
     ids, objs = {}, []
     present = {}            # pool index -> equation object most recently added
     ntok = [0]
-    steps, checks = [], []
+    toks = []               # (equation object, token)
+    steps = []
     for op in case['ops']:
         kind = op[0]
         rec = {'op': None, 'out': 'ok'}
@@ -673,13 +674,18 @@ def run_ops(case, rng):
             if all(latest[j] is not None for j in need) and lhs_live:
                 l = latest[lhs[1]] if lhs[0] == 'v' else sp.Derivative(latest[lhs[1]], latest[lhs[2]], evaluate=False)
                 eq = sp.Eq(l, build_expr(rhs, latest, m), evaluate=False)
-                rec['op'] = ['addEq'] + eq_record(eq, ids, ntok[0])
+                # equations that are == share a token (list.remove takes the first equation that is ==)
+                tok = next((t for e_, t in toks if e_ == eq), None)
+                if tok is None:
+                    tok = ntok[0]
+                    ntok[0] += 1
+                    toks.append((eq, tok))
+                rec['op'] = ['addEq'] + eq_record(eq, ids, tok)
                 rec['entered'] = [lhs[0]] + [ids[latest[j]] for j in lhs[1:]]
                 rec['entered_rhs'] = rename(rhs, lambda j: ids[latest[j]])
                 # SymPy canonicalises when the tree is built (x - x, q**1 ...): the roles are about the tree it holds
                 rec['canon'] = (ser_refs(rec['entered_rhs'], set()) != ser_refs(rec['op'][3], set())
                                 or (rhs[0] == 'n') != rec['op'][4])
-                ntok[0] += 1
 
                 def call(eq=eq, k=op[1]):
                     m.add_equation(eq)
